@@ -168,6 +168,7 @@ theorem gg_gen : ∀ (n : Nat) (t : Ty), t.w ≤ n → GenGood cfg sfh t → Gen
     have henum : GenGood cfg sfh (.enum [] false) := by simp [GenGood, Ty.WF, Ty.TA]
     cases t with
     | unit => simp only [generalize, genericType]; exact ⟨gt, gt⟩
+    | callable p r k => have := gt.2; unfold Ty.TA at this; exact absurd this id
     | data => simp only [generalize, genericType]; exact ⟨gt, gt⟩
     | richData => simp only [generalize, genericType]; exact ⟨gt, gt⟩
     | any => simp only [generalize, genericType]; exact ⟨gt, gt⟩
@@ -310,6 +311,10 @@ theorem gen_asg_var (hl : ∀ s, (cfg.lower s).length = s.length) : ∀ (n : Nat
     | richData => simp only [generalize, genericType]; exact ⟨self, self⟩
     | any => simp only [generalize, genericType]; exact ⟨self, self⟩
     | unit => simp only [generalize, genericType]; exact ⟨self, self⟩
+    | callable p r k =>
+      have : asg cfg sfh (.callable none none none) (.callable p r k) = true :=
+        viaR cfg sfh rfl (by rw [recv_callable_eq]; exact callAcc_default cfg sfh p r k)
+      simp only [generalize, genericType]; exact ⟨this, this⟩
     | undef => simp only [generalize, genericType]; exact ⟨self, self⟩
     | dflt => simp only [generalize, genericType]; exact ⟨self, self⟩
     | scalar => simp only [generalize, genericType]; exact ⟨self, self⟩
